@@ -158,6 +158,12 @@ Proof.
   - destruct (get h s) as [[| | | |cs]|]; try discriminate.
     destruct (copy_chords h UCopy (concat (repeat cs k))) as [[h1 l1]|] eqn:E; [|discriminate]. cbn [obind fst snd alloc] in H. injection H as <- _.
     apply extends_preserves. apply (extends_trans _ h1); [exact (copy_chords_extends _ _ _ _ _ E)|eexists; reflexivity].
+  - destruct (get h c) as [[| | |e x t o ps|]|]; try discriminate.
+    destruct (copy_chords h UCopy (repeat c k)) as [[h1 l1]|] eqn:E; [|discriminate]. cbn [obind fst snd alloc] in H. injection H as <- _.
+    apply extends_preserves. apply (extends_trans _ h1); [exact (copy_chords_extends _ _ _ _ _ E)|eexists; reflexivity].
+  - destruct (get h a0) as [[n| | | |]|]; try discriminate.
+    destruct (copy_notes h UCopy (repeat a0 k)) as [[h1 l1]|] eqn:E; [|discriminate]. cbn [obind fst snd alloc] in H. injection H as <- _.
+    apply extends_preserves. apply (extends_trans _ h1); [exact (copy_notes_extends _ _ _ _ _ E)|eexists; reflexivity].
   - (* the in-place editor: a copy, then writes at or above the old heap size *)
     destruct (get h s) as [[| | | |cs]|]; try discriminate.
     destruct (copy_chords h UCopy cs) as [[h1 l1]|] eqn:E; [|discriminate]. cbn [obind fst snd] in H.
@@ -412,6 +418,12 @@ Proof.
   - destruct (get h s) as [[| | | |cs]|]; try discriminate.
     destruct (copy_chords h UCopy (concat (repeat cs k))) as [[h1 l1]|] eqn:E; [|discriminate]. cbn [obind fst snd alloc] in H. injection H as <- <-.
     destruct (copy_chords_closed _ _ _ _ _ E Hc) as [C1 F1]. apply closed_alloc; [exact C1|exact F1].
+  - destruct (get h c) as [[| | |e x t o ps|]|]; try discriminate.
+    destruct (copy_chords h UCopy (repeat c k)) as [[h1 l1]|] eqn:E; [|discriminate]. cbn [obind fst snd alloc] in H. injection H as <- <-.
+    destruct (copy_chords_closed _ _ _ _ _ E Hc) as [C1 F1]. apply closed_alloc; [exact C1|exact F1].
+  - destruct (get h a0) as [[n| | | |]|]; try discriminate.
+    destruct (copy_notes h UCopy (repeat a0 k)) as [[h1 l1]|] eqn:E; [|discriminate]. cbn [obind fst snd alloc] in H. injection H as <- <-.
+    destruct (copy_notes_closed _ _ _ _ _ E Hc) as [C1 F1]. apply closed_alloc; [exact C1|exact F1].
   - destruct (get h s) as [[| | | |cs]|]; try discriminate.
     destruct (copy_chords h UCopy cs) as [[h1 l1]|] eqn:E; [|discriminate]. cbn [obind fst snd] in H.
     destruct (edit_chords (length h) h1 l1 vals) as [h2|] eqn:E2; [|discriminate]. cbn [obind alloc] in H. injection H as <- <-.
